@@ -540,6 +540,21 @@ func Run(cfg RunConfig) (*RunOutput, error) {
 			for k, v := range in {
 				bb[k] = v
 			}
+			// an instance with "shards": N is explored by N jobs; job i keeps exactly the paths whose first
+			// shard_depth value-fork decisions (vChoose / concretisation values) hash to i (see forkValues)
+			if n := bb["shards"]; n > 1 {
+				if bb["shard_depth"] == 0 {
+					bb["shard_depth"] = 3
+				}
+				for i := 0; i < n; i++ {
+					b2 := map[string]int{"shard": i}
+					for k, v := range bb {
+						b2[k] = v
+					}
+					jobs = append(jobs, job{e, b2, l})
+				}
+				continue
+			}
 			jobs = append(jobs, job{e, bb, l})
 		}
 	}
